@@ -19,7 +19,8 @@ def run(ctx):
     ctx.rule = ('TLC expands every population circuit of C16Progs (1-3 populations of 1-3 (quick) / 1-4 units, recurrent and '
                 'feed-forward, non-square signed sparse weight matrices, scalar (global) weights, per-unit parameters, coupling '
                 'edge "pre" (3*source) and "diff" (source - target, evaluated per (target, source) pair), two connections '
-                'converging on one variable) into nodes and scalar edges and exports Denote of the expansion; the '
+                'converging on one variable, two scalar weights converging on one variable, two coupling edges of one template that differ '
+                'in a constant only) into nodes and scalar edges and exports Denote of the expansion; the '
                 'PopulationTemplate/Connectivity circuit, the add_edges_from_matrix circuit and the edge-by-edge circuit are '
                 'compiled and their probed fields compared exactly with it')
     ctx.assumptions += ['input defaults are 0 in these programs (a unit without incoming non-zero entry receives 0 either way)',
@@ -30,7 +31,7 @@ def run(ctx):
     for p in progs:
         cpls = {c['cpl'] for c in p['pop']['conns']}
         jobs.append(dict(p=p, form='pop', vec=True))
-        if 'diff' not in cpls and 'pre2' not in cpls:
+        if 'diff' not in cpls and 'pre2' not in cpls and 'pre6' not in cpls:
             jobs.append(dict(p=p, form='matrix', vec=True))
             jobs.append(dict(p=p, form='matrix', vec=False))
             if tier == 'thorough':
